@@ -1,8 +1,8 @@
-# Unit Q31 — the caches are transparent (PageCache / LeafCache / PageSet; hook H20).  Loaded by props.py.
+# Unit Q31 — the caches are transparent (PageCache / LeafCache / PageSet; hook H21).  Loaded by props.py.
 CACHES_RUN = {"cmd": "caches", "mode": "caches", "cases": {"quick": 2000, "thorough": 60000}, "shards": {"quick": 4, "thorough": 16}}
 CACHES_DB_RUN = {"cmd": "caches-db", "mode": "caches", "cases": {"quick": 24, "thorough": 480}, "shards": {"quick": 4, "thorough": 16}}
 CACHES_RULE = (
-    " caches run (hook H20): a case = ONE real cache instance — PageCache (1..64 shards, also 0 / 65 / 100; 0 / 1 / 2 / 16 / 2^44 MiB; 0..3 pinned levels; per-root-child limit 1..3 pages "
+    " caches run (hook H21): a case = ONE real cache instance — PageCache (1..64 shards, also 0 / 65 / 100; 0 / 1 / 2 / 16 / 2^44 MiB; 0..3 pinned levels; per-root-child limit 1..3 pages "
     "set through the hook; root page present or not), LeafCache (1..64 shards, also 0; 0 / 1 / 2 MiB; max_items 0..3 per shard) or PageSet (working map + warmed-up map) — driven through 20..60 "
     "generated calls over a small universe of page ids around the pinned depth / of RECYCLED page numbers: cached reads (get, on a miss load + insert), commits (batch_update with changed and removed "
     "pages), evict, prepopulation, syncs (leaf writes at fresh or recycled page numbers, PostIoWork insertions, evict); after EVERY call the whole contents (pinned map, LRU order most recent first, "
